@@ -7,7 +7,7 @@ HEADER = """C08 - a failed allocation is atomic: error status, nothing changed, 
     and the invariant still holds - so by the refinement theorems every later operation behaves as if the failed
     call had never happened. Constructors and derived-container builders return no object and leave the ledger
     as it was."""
-IMPORTS = """From Coq Require Import Permutation Sorted.\nFrom CC Require Import Base.Prelude Base.Alloc Base.Ledger Generated.Status Generated.Constants Generated.Guards.\nFrom CC Require Import Rbuf.RbufModel SPool.SPoolModel DPool.DPoolModel Array.ArrayModel Deque.DequeModel PQueue.PQueueModel Hash.HashModel Tst.TstModel Tree.TreeModel.\n@MODULES@\nLocal Open Scope N_scope."""
+IMPORTS = """From Coq Require Import Permutation Sorted.\nFrom CC Require Import Base.Prelude Base.Alloc Base.Ledger Generated.Status Generated.Constants Generated.Guards.\nFrom CC Require Import Rbuf.RbufModel SPool.SPoolModel DPool.DPoolModel Array.ArrayModel Deque.DequeModel PQueue.PQueueModel Hash.HashModel Tst.TstModel Tree.TreeModel List_.ListModel SList.SListModel.\n@MODULES@\nLocal Open Scope N_scope."""
 THEOREMS = [
   ("C08_array_growth", "Array:expand_spec", "CC_Array growth: new buffer first, commit after; refusal = same array, one refused request"),
   ("C08_array_add", "Array:add_spec", "CC_Array add / add_at / trim / iterator add: the same"),
@@ -30,4 +30,8 @@ THEOREMS = [
   ("C08_treetable", "T_step_refines", "CC_TreeTable: ERR_ALLOC only from add, state unchanged (part of the step theorem)"),
   ("C08_rbuf_new", "rb_new_refused_clean", "CC_Rbuf constructor"),
   ("C08_dpool_new", "dp_new_spec", "CC_DynamicPool constructor; a refused page request makes malloc return NULL with the pool unchanged (C13_malloc)"),
+  ("C08_list_frame", "List_:step_frame", "CC_List: any step with a non-OK status (incl. ERR_ALLOC in add, add_at, add_all's external chain, iterator add) leaves both lists and the live blocks equal"),
+  ("C08_slist_frame", "sstep_frame", "CC_SList"),
+  ("C08_list_copy", "List_:copy_with_spec", "CC_List copies / filter / sublist: a refusal part-way releases the partial result"),
+  ("C08_list_sublist", "List_:sublist_spec", ""),
 ]
